@@ -151,3 +151,36 @@ Example C16_dead_nonvacuous :
   length (snd (fst (fst (tick ex_conf ex_chan 100)))) = 1%nat.
 Proof. exact dead_example. Qed.
 Print Assumptions C16_dead_nonvacuous.
+
+(* THE DISPATCH RULE ACKNOWLEDGES EVERYTHING IT RECEIVES.  In any state [n] (so after every message
+   sequence: [node_run n0 pre] below), every non-ZLB control message whose header names the registered tunnel
+   passes through the receive step — first delivery or retransmission, any message type and session id,
+   and whatever the message's handler does afterwards (arbitrary replies, tunnel removal; session
+   lookups and FSM errors live in the handler): Nr moves exactly by the in-order rule, and either the ZLB
+   timer is armed for now + zlbDelay or a packet sent after the receive step already carries the new Nr. *)
+Theorem C16_dispatch_acks_everything :
+  forall n0 pre m now b,
+  let n := node_run n0 pre in
+  n_known n = true -> m_tid_ok m = true -> k_body (m_pkt m) = Some b ->
+  let n' := node_dispatch n m now in
+  let c := e_ch (n_ep n) in
+  c_nr (e_ch (n_ep n')) = (if k_ns (m_pkt m) =? c_nr c then u16 (c_nr c + 1) else c_nr c) /\
+  acked_since (e_f (n_ep n)) now (e_sent (n_ep n)) (n_ep n').
+Proof. intros n0 pre m now b. exact (dispatch_acks_everything (node_run n0 pre) m now b). Qed.
+Print Assumptions C16_dispatch_acks_everything.
+
+(* ZLBs and messages that do not belong to a registered tunnel never move Nr *)
+Theorem C16_dispatch_nr_unchanged :
+  forall n m now,
+  (n_known n && m_tid_ok m = false \/ k_body (m_pkt m) = None) ->
+  c_nr (e_ch (n_ep (node_dispatch n m now))) = c_nr (e_ch (n_ep n)).
+Proof. exact dispatch_nr_unchanged. Qed.
+Print Assumptions C16_dispatch_nr_unchanged.
+
+(* non-vacuity: a message and its retransmission (whose handler replies and removes the tunnel) are each
+   acknowledged by a ZLB carrying Nr = 1 *)
+Example C16_dispatch_nonvacuous :
+  let n0 := mkN true (new_endpoint 120 240 5 60 16 0 0) in
+  map (fun p => (k_body p, k_nr p)) (e_sent (n_ep (node_run n0 full_msgs))) = [(None, 1); (None, 1)].
+Proof. exact full_example. Qed.
+Print Assumptions C16_dispatch_nonvacuous.
